@@ -62,6 +62,9 @@ func runC18(c *Ctx) {
 	c06Arms(c, "C18.4")
 	ruleLookupErrors(c, "C18.5")
 	ruleMutatorAtomic(c, "C18.6")
+	ruleNoSelfFormat(c, "C18.7", "engine", "storage", "sql")
+	ruleFilledByIndex(c, "C18.8", "storage.ShowDB")
+	ruleNoArithmeticOnStatementInts(c, "C18.9")
 }
 
 func c18PanicSources(c *Ctx, rule string) {
@@ -790,22 +793,22 @@ func c18NoService(c *Ctx, rule string) {
 // ---- C18.3 --------------------------------------------------------------------------------------
 
 func c18Locks(c *Ctx, rule string) {
-	c.Rule(rule, "no statement can hang on the store lock: every acquisition of the store's RWMutex (directly or through StartTxn/lockShared/lockExclusive) is released on every path to the function's exit (deferred, or explicitly before each return), and no exclusive acquisition is reachable from inside a shared bracket (sync.RWMutex would self-deadlock: the flush CREATE TABLE ends with must run after its bracket is released)")
+	c.Rule(rule, "no statement can hang on the store lock: every acquisition of the store's RWMutex (directly or through StartTxn/lockShared/lockExclusive) is released on every path to the function's exit (deferred, or explicitly before each return), and no further acquisition of the store lock is reachable from inside a bracket (sync.RWMutex self-deadlocks on a nested exclusive acquisition, and on a nested shared one as soon as the flusher waits for the exclusive lock; the flush CREATE TABLE ends with must run after its bracket is released)")
 	w := c.W
 	m := w.Locks()
 	cg := w.CG()
-	// functions that may acquire exclusively
+	// functions that acquire the store lock (either kind): a nested acquisition deadlocks — an
+	// exclusive one always, a shared one as soon as the flusher is waiting for the exclusive lock
+	// (sync.RWMutex blocks new readers behind a waiting writer)
 	excl := map[*Func]bool{}
-	for f, k := range m.acquire {
-		if k == lockExclK {
-			excl[f] = true
-		}
+	for f := range m.acquire {
+		excl[f] = true
 	}
 	for _, name := range w.SortedFuncNames() {
 		f := w.Funcs[name]
 		ast.Inspect(f.Decl.Body, func(x ast.Node) bool {
 			if call, ok := x.(*ast.CallExpr); ok {
-				if k, rel, ok := m.primitiveLockCall(f, call); ok && !rel && k == lockExclK {
+				if _, rel, ok := m.primitiveLockCall(f, call); ok && !rel {
 					excl[f] = true
 				}
 			}
@@ -864,10 +867,7 @@ func c18Locks(c *Ctx, rule string) {
 			} else {
 				c.OK(rule, key, a.call.Pos(), 1, "released on every exit")
 			}
-			if a.kind != lockSharedK {
-				continue
-			}
-			// exclusive acquisition inside this shared bracket?
+			// another acquisition inside this bracket?
 			key = f.Name + "|no-exclusive-inside#" + itoa(i+1)
 			bad := ""
 			for _, cs := range cg.Sites[f] {
@@ -882,14 +882,20 @@ func c18Locks(c *Ctx, rule string) {
 				if !ok || loc == a.loc {
 					continue
 				}
-				in, _ := br.Inside(loc, lockSharedK)
+				in, _ := br.Inside(loc, a.kind)
 				if !in {
 					continue
 				}
+				if _, isLockCall, _ := m.lockCall(f, cs.Call); isLockCall {
+					continue // the bracket's own release
+				}
 				for _, t := range cs.Targets {
+					if _, isRel := m.release[t]; isRel {
+						continue
+					}
 					if mayExcl[t] {
 						path := cg.PathTo(t, func(x *Func) bool { return excl[x] })
-						bad = f.Src(cs.Call.Fun) + " at " + w.Pos(cs.Call.Pos()) + " reaches an exclusive acquisition (" + strings.Join(path, " -> ") + ") while the shared lock is held"
+						bad = f.Src(cs.Call.Fun) + " at " + w.Pos(cs.Call.Pos()) + " reaches another acquisition of the store lock (" + strings.Join(path, " -> ") + ") while the lock is held"
 					}
 				}
 			}
